@@ -1,9 +1,98 @@
-"""C12 - aliases are emitted exactly once, where they define a name (obligations alias/site, alias/class-on,
-alias/class-off; see positions.py and contracts/spec/positions.py)."""
-from .positions import generate_for
+"""C12 - aliases are written at defining positions only (obligations alias/site, alias/class-on, alias/class-off from
+positions.py) and an alias is *referenced* only where the same statement defines it:
+
+alias/ref   in every _group_sql / _orderby_sql the branch that prints the alias of a GROUP BY / ORDER BY item instead
+            of the item itself is guarded by membership of that alias in the set of aliases of the select list AS IT IS
+            AT RENDER TIME (a set built inside the function from ..._selects), never in builder-maintained state."""
+from __future__ import annotations
+
+import re
+
+import z3
+
+from ..driver import run_function
+from ..front import repo
+from ..oblig import PROVED, REFUTED, UNKNOWN, UNSUPPORTED, Obligation
+from ..values import Dyn, IteA, JoinA, MapPart, PreSeq, QuoteA, Sym
+from .base import classes_using, parallel
+from .positions import generate_for, shape_of
 
 PROP = "C12"
 
 
+def _atoms(f, acc):
+    if z3.is_const(f) and f.decl().kind() == z3.Z3_OP_UNINTERPRETED:
+        acc.add(f.decl().name())
+    for c in f.children():
+        _atoms(c, acc)
+    return acc
+
+
+def alias_refs(atoms, conds, out):
+    """(conditions, alias datum path) of every quoted alias that is not the receiver's own alias"""
+    for a in atoms:
+        if isinstance(a, IteA):
+            alias_refs(a.a, conds + [a.c], out)
+            alias_refs(a.b, conds + [z3.Not(a.c)], out)
+        elif isinstance(a, JoinA):
+            alias_refs(a.body, conds, out)
+        elif isinstance(a, QuoteA) and len(a.inner) == 1 and isinstance(a.inner[0], Dyn) and \
+                isinstance(a.inner[0].v, Sym) and a.inner[0].v.path.endswith(".alias") and \
+                a.inner[0].v.path != "self.alias":
+            out.append((list(conds), a.inner[0].v.path))
+
+
+def check_ref(item):
+    fq, cq = item
+    r = repo()
+    fi, ci = r.funcs[fq], r.classes[cq]
+    name = f"{fi.short}@{ci.short}"
+    run = run_function(fi, ci)
+    if run.error:
+        return [Obligation(PROP, f"{name}|alias/ref", "alias/ref", fi.short, UNSUPPORTED, reason=run.error)]
+    ex = run.ex
+    bad, n = [], 0
+    for o in run.outcomes:
+        if o.status != "return":
+            continue
+        ex.st = o.state
+        ex.frames = []
+        sh = shape_of(ex, o.value)
+        refs = []
+        alias_refs(sh.atoms, list(o.state.pc), refs)
+        # sets of select-list aliases computed in this call
+        fresh_sets = {}
+        for oid, h in o.state.heap.items():
+            if h.kind in ("set", "list") and h.fresh and len(h.parts) == 1 and isinstance(h.parts[0], MapPart):
+                mp = h.parts[0]
+                src = mp.seq[0].path if len(mp.seq) == 1 and isinstance(mp.seq[0], PreSeq) else ""
+                items = [repr(i) for _g, its in mp.alts for i in its]
+                if src.endswith("._selects") and items and all(i.endswith(".alias") for i in items):
+                    fresh_sets[f"map{mp.lid}"] = src
+        for conds, path in refs:
+            n += 1
+            names = set()
+            for c in conds:
+                names |= _atoms(c, set())
+            member = [a for a in names if a.startswith("in!" + path + "|")]
+            good = [a for a in member if a.split("|", 1)[1] in fresh_sets]
+            if not good:
+                bad.append(f"the alias {path} is printed as a reference under "
+                           f"{[a for a in member] or 'no membership test'}; select-list alias sets built in this call: "
+                           f"{sorted(fresh_sets.values()) or 'none'}")
+    return [Obligation(PROP, f"{name}|alias/ref", "alias/ref", fi.short, REFUTED if bad else PROVED,
+                       detail=f"{n} alias reference(s): each guarded by membership in the aliases of the current "
+                              "select list", reason="; ".join(sorted(set(bad))[:2]),
+                       witness={"family": "call", "oracle": "alias_reference", "args": [ci.short]})]
+
+
 def generate(tier="quick"):
-    return generate_for(PROP, tier)
+    obs, meta = generate_for(PROP, tier)
+    r = repo()
+    items = []
+    for fi in sorted(r.funcs.values(), key=lambda f: f.qual):
+        if fi.name in ("_group_sql", "_orderby_sql") and fi.cls is not None:
+            for ci in classes_using(r, fi):
+                items.append((fi.qual, ci.qual))
+    obs = list(obs) + parallel(check_ref, items)
+    return obs, meta
